@@ -111,6 +111,11 @@ def families(tier):
         # two guarded updates that ask for the same thing
         make_family('put_aggs+put_aggs(same list)',
                     [c05.put_aggs(1), c05.put_aggs(2)]),
+        make_family('put_traits+put_traits(same list)',
+                    [c05.put_traits(1), c05.put_traits(2)]),
+        # (the new totals are symbolic: equal and different targets)
+        make_family('put_invs+put_invs', [c05.put_invs(1), c05.put_invs(2)]),
+        make_family('put_inv+put_inv', [c05.put_inv(1), c05.put_inv(2)]),
         # retries exhausted by one competing provider write
         make_family('claim+put_traits/retry=1',
                     [claim(1, 1), c05.put_traits(2)], retry_count=1),
